@@ -131,6 +131,9 @@ fn handle(req: &Value) -> Value {
     }
 }
 
+/// marker of a wall-clock backstop firing in a forked evaluation: a machinery condition, never a verdict
+pub const WALL_BACKSTOP: &str = "wall-clock backstop";
+
 pub fn worker_main() -> i32 {
     // address-space limit: "memory out of proportion" = more than this for inputs of a few hundred KB at most
     let gib: u64 = std::env::var("VERIF_WORKER_AS_GIB").ok().and_then(|s| s.parse().ok()).unwrap_or(4);
@@ -159,7 +162,13 @@ pub fn worker_main() -> i32 {
         // "isolate" - those whose data may deserialize into unsound values - pay for it)
         let pid = if req["isolate"].as_bool() == Some(true) { unsafe { libc::fork() } } else { -1 };
         if pid == 0 {
-            unsafe { libc::alarm(timeout_s as libc::c_uint) };
+            // the time limit is CPU time of this child (SIGXCPU), so that a loaded machine cannot turn a slow
+            // evaluation into a verdict; a generous wall-clock alarm is only a backstop and is reported as such
+            unsafe {
+                let cpu = libc::rlimit { rlim_cur: timeout_s, rlim_max: timeout_s + 5 };
+                libc::setrlimit(libc::RLIMIT_CPU, &cpu);
+                libc::alarm((timeout_s * 45) as libc::c_uint);
+            }
             let ans = handle(&req);
             let mut out = stdout.lock();
             let _ = writeln!(out, "{}", ans);
@@ -169,10 +178,11 @@ pub fn worker_main() -> i32 {
             let mut status: libc::c_int = 0;
             unsafe { libc::waitpid(pid, &mut status, 0) };
             // the child arms an alarm for itself: SIGALRM = it ran longer than the time limit
-            let timed_out = libc::WIFSIGNALED(status) && libc::WTERMSIG(status) == libc::SIGALRM;
-            let ok = !timed_out && libc::WIFEXITED(status) && libc::WEXITSTATUS(status) == 0;
+            let timed_out = libc::WIFSIGNALED(status) && libc::WTERMSIG(status) == libc::SIGXCPU;
+            let wall = libc::WIFSIGNALED(status) && libc::WTERMSIG(status) == libc::SIGALRM;
+            let ok = !timed_out && !wall && libc::WIFEXITED(status) && libc::WEXITSTATUS(status) == 0;
             if !ok {
-                let how = if timed_out { format!("timeout after {timeout_s} s") } else if libc::WIFSIGNALED(status) { format!("signal {}", libc::WTERMSIG(status)) } else { format!("exit status {}", libc::WEXITSTATUS(status)) };
+                let how = if timed_out { format!("timeout after {timeout_s} s of CPU time") } else if wall { format!("{WALL_BACKSTOP}: no answer within {} s of wall-clock time (machine overloaded?)", timeout_s * 45) } else if libc::WIFSIGNALED(status) { format!("signal {}", libc::WTERMSIG(status)) } else { format!("exit status {}", libc::WEXITSTATUS(status)) };
                 let mut out = stdout.lock();
                 let _ = writeln!(out, "{}", json!({"died": how}));
                 let _ = out.flush();
